@@ -16,7 +16,7 @@ RULE = ("Hypothesis-generated cover-labelled networks (5..10 vertices quick / ..
         "motif hypergraph has a cycle, >= 2 motif kinds, some queried phi with 0.01 < S < 0.99; distinct = canonical JSON")
 ASSUMPTIONS = ["fixed-point comparison only where the reference iteration converges fast (the statement's 'away from "
                "slow-convergence points', with a 4x margin over the library's in-place sweeps)"]
-BUDGET = {"quick": (16, 14), "thorough": (16, 150)}
+BUDGET = {"quick": (16, 14), "thorough": (16, 300)}
 SHRINK_IN_QUICK = False
 
 SHAPES = {
